@@ -1112,6 +1112,16 @@ where
         remote: NodeId,
         result: Result<fetch::FetchResult, FetchError>,
     ) {
+        match self.fetching.get(&rid) {
+            Some(fetching) if fetching.from != remote => {
+                // Nb. This can happen if the fetch was cancelled due to a disconnection, and
+                // the repository is now being fetched from another peer. The result doesn't
+                // belong to the ongoing fetch, which we mustn't touch.
+                warn!(target: "service", "Ignoring stale fetch result for {rid}, from {remote}");
+                return;
+            }
+            _ => {}
+        }
         let Some(fetching) = self.fetching.remove(&rid) else {
             error!(target: "service", "Received unexpected fetch result for {rid}, from {remote}");
             return;
